@@ -90,10 +90,6 @@ def h_norm(nr, nc, axis):
     t, a = make_table(nr, nc, md='none', zeros=1, type_='OTU table', lo=0)
     inplace = flag('inplace')
     N = len(a.ids(axis))
-    for k in range(N):
-        vec = a.vec(axis, k)
-        if not any(is_sym(x) for x in vec) and a.info['explicit_zero']:
-            stored_zero_only = True
     sig = dict(axis=axis)
     res, e = call(lambda: t.norm(axis=axis, inplace=inplace))
     if e is not None:
@@ -107,7 +103,7 @@ def h_norm(nr, nc, axis):
     for k in range(N):
         vec = a.vec(axis, k)
         tot = ssum(vec)
-        if not any(is_sym(x) for x in vec):
+        if not any(is_sym(x) or x != 0 for x in vec):
             continue
         for q, x in enumerate(vec):
             y = x / tot if (is_sym(x) or x != 0) else 0.0
